@@ -234,6 +234,16 @@ def main():
         sl2.append("in %d %s 0a %s" % (cap, scr, vlib.hx(src_)))
     real = tie("h_substdio", None, sl2, "substdio", link=["getln.a", "substdio.a", "stralloc.a", "error.a", "str.a"])
     if real:
+        # substdo.c as generated from today's source (op = the scripted write oracle), every access checked: same answers as the compiled functions
+        try:
+            # (lines of at most 1500 bytes of data: the generated byte_copy writes a list element per step, quadratic in the buffer size)
+            outl = [(l_, a_) for l_, a_ in zip(sl2, real) if l_.startswith("out") and len(l_) < 3000]
+            g_, _, _ = vlib.run_lines(vlib.build_driver("GEN"), [l_ for l_, _ in outl])
+            for (l_, a_), y_ in zip(outl, g_):
+                ck.count("substdio_generated")
+                if y_ != a_: mism.append(dict(stream="substdo.c generated / compiled", kind="translator", input=l_[:600], real=a_[:300], generated=y_[:300])); break
+        except RuntimeError as e:
+            mism.append(dict(stream="substdo.c generated", kind="translator", what="the generated functions do not build", log=str(e)[-600:]))
         mod, _, _ = vlib.run_lines(drv, sl2)
         for l_, a_, b_ in zip(sl2, real, mod):
             ck.evaluated(); ck.count("tie_substdio_" + l_.split()[0])
